@@ -52,6 +52,41 @@ def fill_bytes(seed, off, n):
     return (pat * reps)[start:start + n]
 
 
+def content_bytes(seed, off, n, zeros=()):
+    """fill_bytes with the stream positions inside the half-open ranges `zeros` = [(a, b), ...] set to 0:
+    sparse / pre-allocated / zero-padded contents (the harness and the judge build the same bytes)."""
+    b = fill_bytes(seed, off, n)
+    if not zeros or n == 0:
+        return b
+    ba = bytearray(b)
+    for a, e in zeros:
+        lo, hi = max(a, off) - off, min(e, off + n) - off
+        if lo < hi:
+            ba[lo:hi] = bytes(hi - lo)
+    return bytes(ba)
+
+
+def zero_layouts(n):
+    """Content families for an n-byte file as (family name, zero ranges): all zero, random prefix + zero
+    tail, zero prefix + random tail, a zero run in the middle; the cuts are the chunk boundaries of the
+    full-read ladder (so whole chunks are zero), one byte off them, and the middle of the last chunk."""
+    if n == 0:
+        return []
+    sums, s = [0], 0
+    for t in expected_full_read_sizes(n):
+        s += t; sums.append(s)
+    cuts = sorted({c for x in sums for c in (x - 1, x, x + 1) if 0 < c < n} | {(sums[-2] + n) // 2} - {0, n})
+    out = [('all-zero', [(0, n)])]
+    for c in cuts:
+        out.append(('zero-tail@%d' % c, [(c, n)]))
+        out.append(('zero-head@%d' % c, [(0, c)]))
+    for a, b in zip(sums[1:], sums[2:-1]):
+        out.append(('zero-middle@%d-%d' % (a, b), [(a, b)]))
+    if len(sums) >= 5:
+        out.append(('zero-middle@%d-%d' % (sums[1], sums[-2]), [(sums[1], sums[-2])]))
+    return out
+
+
 def crc(b):
     return '%08x' % (zlib.crc32(b) & 0xffffffff)
 
@@ -151,21 +186,25 @@ def chunks_oracle(data, impl_line):
 class RelayCase:
     """listed size, the chunk sequence the (scripted) source doer answers, previous destination."""
 
-    def __init__(self, listed, chunks, prev=None, end='F', seed=7, kind='', mtime_ns=1600000000123456789, prev_newer=False):
+    def __init__(self, listed, chunks, prev=None, end='F', seed=7, kind='', mtime_ns=1600000000123456789, prev_newer=False, zeros=()):
         self.listed, self.chunks, self.prev, self.end, self.seed, self.kind = listed, [(int(s), bool(m)) for s, m in chunks], prev, end, seed, kind
         self.mtime_ns, self.prev_newer = mtime_ns, prev_newer
+        self.zeros = [(int(a), int(b)) for a, b in (zeros or ()) if int(a) < int(b)]   # stream positions that are zero bytes
         if all(m for _, m in self.chunks):
             self.end = 'X'     # without a final chunk a patient source would leave the boss waiting forever: it hangs up instead
 
     def spec(self):
         return ','.join('%d:%d' % (s, 1 if m else 0) for s, m in self.chunks) or '-'
 
+    def zspec(self):
+        return (' Z' + ','.join('%d-%d' % z for z in self.zeros)) if self.zeros else ''
+
     def harness_line(self, dest):
-        return 'R %d %d %s %d %s %s' % (self.listed, self.mtime_ns, hexs(dest), self.seed, self.end, self.spec())
+        return 'R %d %d %s %d %s %s%s' % (self.listed, self.mtime_ns, hexs(dest), self.seed, self.end, self.spec(), self.zspec())
 
     def judge_line(self, unfixed=False):
-        return 'R %d %d %s %d %s %s%s' % (self.listed, self.mtime_ns, 'absent' if self.prev is None else str(self.prev),
-                                          self.seed, self.end, self.spec(), ' U' if unfixed else '')
+        return 'R %d %d %s %d %s %s%s%s' % (self.listed, self.mtime_ns, 'absent' if self.prev is None else str(self.prev),
+                                            self.seed, self.end, self.spec(), ' U' if unfixed else '', self.zspec())
 
     def prepare(self, dest):
         if self.prev is not None:
@@ -180,20 +219,20 @@ class RelayCase:
 
     def actual(self):
         """bytes of the source file at copy time (what the reader sent), for a well-flagged sequence"""
-        return fill_bytes(self.seed, 0, sum(s for s, _ in self.chunks))
+        return content_bytes(self.seed, 0, sum(s for s, _ in self.chunks), self.zeros)
 
     def to_json(self):
         return {'driver': 'scripted-relay', 'listed': self.listed, 'chunks': [[s, 1 if m else 0] for s, m in self.chunks],
                 'prev': self.prev, 'end': self.end, 'seed': self.seed, 'kind': self.kind, 'mtime_ns': self.mtime_ns,
-                'prev_newer': self.prev_newer}
+                'prev_newer': self.prev_newer, 'zero_ranges': [list(z) for z in self.zeros]}
 
     @staticmethod
     def from_json(j):
         return RelayCase(j['listed'], j['chunks'], j.get('prev'), j.get('end', 'F'), j.get('seed', 7), j.get('kind', 'replay'),
-                         j.get('mtime_ns', 1600000000123456789), j.get('prev_newer', False))
+                         j.get('mtime_ns', 1600000000123456789), j.get('prev_newer', False), j.get('zero_ranges') or ())
 
     def canonical(self):
-        return (self.listed, tuple(self.chunks), self.prev, self.end, self.prev_newer)
+        return (self.listed, tuple(self.chunks), self.prev, self.end, self.prev_newer, tuple(self.zeros))
 
 
 def full_read_chunks(n):
